@@ -32,7 +32,13 @@ func init() {
 	register(simple("C12", "kernel", "device/acpi/aml", 16))
 	register(simple("C13", "kernel", "device/acpi/aml", 8))
 	register(simple("C14", "kernel", "device/acpi", 8))
-	register(simple("C15", "kernel", "kfmt", 8))
+	c15 := simple("C15", "kernel", "kfmt", 8)
+	// go1.22+ turns non-escaping string->[]byte conversions into zero-copy views; the kernel's
+	// go1.15-era toolchain allocates there. The second run rebuilds kfmt without that optimisation
+	// so that allocation regressions of exactly that kind are visible on the host.
+	c15.runs = append(c15.runs, runSpec{name: "nozerocopy", test: "^TestVerifC15$", shards: 8,
+		gcflags: "-gcflags=github.com/ProjectSerenity/firefly/kernel/kfmt=-d=zerocopy=0"})
+	register(c15)
 	c16 := simple("C16", "kernel", "hal", 8)
 	c16.runs = append(c16.runs, runSpec{name: "ring", pkg: "kfmt", test: "^TestVerifC16Ring$", shards: 4})
 	register(c16)
